@@ -33,7 +33,7 @@ def run(scn: Dict[str, Any]) -> ClockRun:
     cfg = scn["config"]
     out = ClockRun()
     out.tz = cfg.get("tz") or "UTC"
-    with SimContext(cfg.get("sched", 0), cfg["epoch0"], cfg.get("tz")) as ctx:
+    with SimContext(cfg.get("sched", 0), cfg["epoch0"], cfg.get("tz"), tick_ns=cfg.get("tick_ns", 0)) as ctx:
         sim = ctx.sim
         out.sim = sim
         for st in scn["steps"]:
@@ -45,11 +45,13 @@ def run(scn: Dict[str, Any]) -> ClockRun:
                 sim.wall_jump(st["s"])
             elif k == "roundtrip":
                 for s in st["hhmm"]:
+                    w0 = sim.wall()
                     enc = _call(tools.time_to_hexadecimal_timestamp, s)
+                    w1 = sim.wall()
                     dec = None
                     if enc[0] == "ok" and isinstance(enc[1], str):
                         dec = _call(tools.hexadecimale_timestamp_to_localtime, enc[1].encode())
-                    out.obs.append({"kind": "roundtrip", "uid": st.get("uid"), "s": s, "wall": sim.wall(), "enc": enc, "dec": dec})
+                    out.obs.append({"kind": "roundtrip", "uid": st.get("uid"), "s": s, "wall": w0, "wall1": w1, "enc": enc, "dec": dec})
                     sim.rec("roundtrip", s, enc, dec)
             elif k == "decode":
                 for e in st["epochs"]:
@@ -59,6 +61,7 @@ def run(scn: Dict[str, Any]) -> ClockRun:
                     sim.rec("decode", e, dec)
             elif k == "next_run":
                 days = {Days[n] for n in st["days"]}
+                w0 = sim.wall()
                 if st.get("via") == "schedule":
                     r = _call(lambda: SwitcherSchedule("0", bool(days), days, st["start"], st.get("end", st["start"])).display)
                 elif not days and st.get("omit_days"):
@@ -66,7 +69,7 @@ def run(scn: Dict[str, Any]) -> ClockRun:
                 else:
                     r = _call(tools.pretty_next_run, st["start"], days)
                 out.obs.append({"kind": "next_run", "uid": st.get("uid"), "start": st["start"], "days": sorted(st["days"]),
-                                "wall": sim.wall(), "res": r})
+                                "wall": w0, "wall1": sim.wall(), "res": r})
                 sim.rec("next_run", st["start"], sorted(st["days"]), r)
             else:
                 raise ValueError("unknown clock step %r" % k)
